@@ -386,10 +386,20 @@ func (n *Net) grantRead(t *Task) string {
 		c.inbox = c.inbox[k:]
 		c.consumed += k
 		t.resp.n = k
-		if len(c.inbox) == 0 && c.term == TermEOF && c.termWithData {
-			t.resp.err = io.EOF
+		if len(c.inbox) == 0 && c.term != TermNone && c.termWithData {
+			// the io.Reader contract allows a Read to return the last bytes together with the error
 			c.termWithData = false
-			return fmt.Sprintf("%d+EOF", k)
+			switch c.term {
+			case TermEOF:
+				t.resp.err = io.EOF
+				return fmt.Sprintf("%d+EOF", k)
+			case TermReset:
+				t.resp.err = ErrConnReset
+				return fmt.Sprintf("%d+reset", k)
+			default:
+				t.resp.err = ErrIOTimeout
+				return fmt.Sprintf("%d+timeout", k)
+			}
 		}
 		return fmt.Sprintf("%d", k)
 	}
@@ -554,14 +564,14 @@ func (c *Conn) DeliverAfter(d time.Duration, b []byte) {
 }
 
 // End sets the terminal condition of the server->client stream. withData
-// (EOF only) makes the Read that drains the inbox return io.EOF together
-// with the last bytes.
+// makes the Read that drains the inbox return the error together with the
+// last bytes.
 func (c *Conn) End(term int, withData bool) {
 	if c.term != TermNone {
 		return
 	}
 	c.term = term
-	c.termWithData = withData && term == TermEOF && len(c.inbox) > 0
+	c.termWithData = withData && len(c.inbox) > 0
 	c.FirstTermAt = c.net.s.now
 	c.termSet = true
 }
